@@ -159,11 +159,15 @@ def cat_selftest(lines):
             o3["full"][2]["v"]["content"] += "x"                  # third repeat differs
             o4 = json.loads(good)
             o4["splits"][0]["res"] = {"o": "err", "v": o4["splits"][0]["res"]["v"], "msg": "x"}
-            res = cat_validate([good, json.dumps(o1), json.dumps(o2), json.dumps(o3), json.dumps(o4)], nproc=1)
+            o5 = json.loads(good)
+            o5["sh"]["in"][-1][0] = "0" * 16                     # an input chunk looks different after the last call
+            o6 = json.loads(good)
+            o6["sh"]["whole"][1] = "ok:" + "0" * 16              # the second whole call on the same values gave something else
+            res = cat_validate([good, json.dumps(o1), json.dumps(o2), json.dumps(o3), json.dumps(o4), json.dumps(o5), json.dumps(o6)], nproc=1)
             got = sorted((b[1], b[2].split(":")[0]) for b in res["bad"])
-            if got != [(2, "rule"), (3, "incomplete-observation"), (4, "nondeterministic"), (5, "rechunk")]:
+            if got != [(2, "rule"), (3, "incomplete-observation"), (4, "nondeterministic"), (5, "rechunk"), (6, "impure"), (7, "impure")]:
                 raise Inconclusive("ConcatObs self-test: corrupted observations not rejected as expected: %s" % got)
-            return {"corrupted_lines_rejected": 4, "uncorrupted_line_accepted": 1}
+            return {"corrupted_lines_rejected": 6, "uncorrupted_line_accepted": 1}
     return {"skipped": "no suitable observation in this run"}
 
 
@@ -495,6 +499,9 @@ def _replay_verdict(prop, bad, sigs_of, case):
 def replay_c12(path):
     rep = json.load(open(path))
     case, o = rep["case"]["case"], rep["case"]["observation"]
+    if case.get("kind") == "ckpt":          # channel-restore clause: the cases are positional in CkptGen's enumeration
+        _, ck_bad, _ = ckpt_check(_repo())
+        return _replay_verdict("C12", [b for b in ck_bad if b[0] == case["id"]], lambda r: [r.replace(":", "/")], {"_path": path, "case": case})
     k = int(o["id"].rsplit(".", 1)[1]) if "." in o["id"] else 0
     lines, _ = ser_replay([case], variants=max(k + 1, 2) if "." in o["id"] else 1)
     lines = [ln for ln in lines if json.loads(ln)["id"] == o["id"]]
